@@ -57,6 +57,11 @@ Theorem C18_prompt_refuted : forall evs,
 Proof. exact prompt_refuted. Qed.
 Print Assumptions C18_prompt_refuted.
 
+Theorem C18_prompt_starvation_refuted : forall k,
+  pexit (prun false pblocked0 (concat (repeat [PWorkerSend; PMain; PHandler] k))) = false.
+Proof. exact prompt_starvation_refuted. Qed.
+Print Assumptions C18_prompt_starvation_refuted.
+
 (* ... whereas with a select that times out, five steps reach the exit from every state. *)
 Theorem C18_prompt_with_timeout : forall s,
   pexit (prun true s [PMain; PHandler; PMain; PHandler; PMain]) = true.
